@@ -42,13 +42,16 @@ struct vs_res { struct vs_route *route; struct vs_pvec params, splats; };
 /* children map: kind (1 fixed, 2 parameter, 3 optional); n entries; for the fixed map: is there an entry for the segment being looked up */
 struct vs_cmap { int kind; size_t n; bool has_seg; };
 struct vs_cit { int kind; size_t i; };   /* iterator: which map, which entry */
+struct Pistache_Rest_SegmentTreeNode;
+struct vs_cpair { struct vs_sv first; struct Pistache_Rest_SegmentTreeNode *second; };
 static inline bool vs_nondet_bool(void) { bool b; return b; }
 /* string_view::find(ch): npos or an index inside the view (WHICH one is the library's business: the first occurrence) */
-extern struct vs_sv g_path; extern size_t g_d; extern bool g_d_set;
-static inline size_t vs_sv_find(const struct vs_sv *s, char ch)
+struct vs_level;
+static inline void vs_level_note_find(struct vs_level *L, const struct vs_sv *path, const struct vs_sv *s, char ch, size_t r);
+static inline size_t vs_sv_find(struct vs_level *L, const struct vs_sv *path, const struct vs_sv *s, char ch)
 {
     size_t r; __CPROVER_assume(r == VS_NPOS || r < s->n);
-    if (ch == '/' && s->p == g_path.p && s->n == g_path.n && !g_d_set) { g_d = r; g_d_set = 1; }
+    vs_level_note_find(L, path, s, ch, r);
     return r;
 }
 /* string_view::substr(pos, count): out_of_range if pos > size, else [pos, pos + min(count, size - pos)) */
@@ -63,7 +66,7 @@ static inline struct vs_sv vs_sv_substr(const struct vs_sv *s, size_t pos, size_
 static inline bool vs_sv_eq(struct vs_sv a, struct vs_sv b) { return a.n == b.n && (a.n == 0 || a.p == b.p); }
 static inline void vs_pvec_push(struct vs_pvec *v, struct vs_sv name, struct vs_sv value)
 {
-    __CPROVER_assert(v->n < PATH_MAX_LEN, "model bound: fewer than 2^32 bindings");
+    __CPROVER_assert(v->n < 2 * PATH_MAX_LEN, "model bound: fewer than 2^33 bindings (one per path segment)");
     v->n++; v->top.name = name; v->top.value = value;
 }
 static inline void vs_pvec_pop(struct vs_pvec *v)
@@ -72,20 +75,20 @@ static inline void vs_pvec_pop(struct vs_pvec *v)
     v->n--; struct vs_bind b; v->top = b;        /* what is below is not tracked */
 }
 
-/* ---- ghost state of ONE level of the search */
-struct vs_sv g_path;               /* the path this level was asked about */
-size_t g_d;                        /* result of path.find('/') */
-bool g_d_set;
-size_t g_p0, g_s0;                 /* sizes of the binding stacks on entry */
-int g_stage;                       /* kind of the last child asked: 0 none, 1 fixed, 2 parameter, 3 optional, 4 wildcard */
-struct vs_route *g_found;          /* first route an attempt yielded */
-size_t g_attempts;
-bool g_fixed_asked, g_splat_asked;
-size_t g_pj, g_oj;                 /* the parameter / optional entry the contract talks about */
-bool g_pj_asked, g_oj_asked;
-size_t g_cur_idx;                  /* entry being visited by the current range-for */
-struct vs_sv g_cur_key;
-bool g_leaf_opt_asked;
+/* ---- ghost state of ONE level of the search: a local of the function under proof (the recursive calls, replaced by the contract, do not
+   touch it) */
+struct vs_level {
+    size_t d; bool d_set;          /* result of path.find('/') */
+    size_t p0, s0;                 /* sizes of the binding stacks on entry */
+    int stage;                     /* kind of the last child asked: 0 none, 1 fixed, 2 parameter, 3 optional, 4 wildcard */
+    struct vs_route *found;        /* first route an attempt yielded */
+    bool fixed_asked, splat_asked, leaf_opt_asked;
+    size_t pj, oj;                 /* the parameter / optional entry the contract talks about (any) */
+    bool pj_asked, oj_asked;
+    size_t cur_idx; struct vs_sv cur_key;   /* entry being visited by the current range-for */
+    struct vs_cpair slot;          /* the map entry a range-for variable refers to */
+    struct Pistache_Rest_SegmentTreeNode *fixed_ptr;   /* what fixed_.at(segment) refers to */
+};
 '''
 SV = 'std::string_view'
 NODE = 'Pistache::Rest::SegmentTreeNode'
@@ -96,7 +99,9 @@ CI = 'std::__detail::_Node_iterator<std::pair<std::basic_string_view<char>, std:
 CP = 'std::pair<std::basic_string_view<char>, std::shared_ptr<Pistache::Rest::SegmentTreeNode>>'
 RES = 'std::tuple<std::shared_ptr<Pistache::Rest::Route>, std::vector<Pistache::Rest::TypedParam>, std::vector<Pistache::Rest::TypedParam>>'
 TYPES = {
-    CIB: 'struct vs_cit', CCI: 'struct vs_cit', CI: 'struct vs_cit', CP: 'struct vs_cpair',
+    CCI + '::value_type': 'struct vs_cpair', CI + '::value_type': 'struct vs_cpair',
+    CIB: 'struct vs_cit', CCI: 'struct vs_cit', CI: 'struct vs_cit', CP: 'struct vs_cpair', 'std::pair<const std::basic_string_view<char>, std::shared_ptr<Pistache::Rest::SegmentTreeNode>>': 'struct vs_cpair',
+    'std::pair<const std::string_view, std::shared_ptr<Pistache::Rest::SegmentTreeNode>>': 'struct vs_cpair',
     'std::string_view': 'struct vs_sv', 'std::basic_string_view<char>': 'struct vs_sv', 'std::string': 'struct vs_sv',
     'std::shared_ptr<Pistache::Rest::SegmentTreeNode>': 'struct Pistache_Rest_SegmentTreeNode *',
     'std::shared_ptr<Pistache::Rest::Route>': 'struct vs_route *', 'std::shared_ptr<Route>': 'struct vs_route *',
@@ -107,6 +112,9 @@ TYPES = {
 }
 STUBS = {
     'move': {'expr': '($0)'},
+    'make_tuple|tuple<typename __decay_and_strip<const shared_ptr<Route> &>::__type, typename __decay_and_strip<vector<TypedParam>>::__type, typename __decay_and_strip<vector<TypedParam>>::__type> (const std::shared_ptr<Pistache::Rest::Route> &, std::vector<Pistache::Rest::TypedParam> &&, std::vector<Pistache::Rest::TypedParam> &&)': {'expr': '((struct vs_res){($0), ($1), ($2)})'},
+    'make_tuple|tuple<typename __decay_and_strip<std::nullptr_t>::__type, typename __decay_and_strip<vector<TypedParam>>::__type, typename __decay_and_strip<vector<TypedParam>>::__type> (std::nullptr_t &&, std::vector<Pistache::Rest::TypedParam> &&, std::vector<Pistache::Rest::TypedParam> &&)': {'expr': '((struct vs_res){(struct vs_route *)0, ($1), ($2)})'},
+    'ctor:std::vector<Pistache::Rest::TypedParam>/0': {'expr': '((struct vs_pvec){0})'},
     'operator=|%s,%s' % (RES, RES): {'expr': '(($0) = ($1))'}, 'operator=|std::shared_ptr<Pistache::Rest::Route>,std::shared_ptr<Pistache::Rest::Route>': {'expr': '(($0) = ($1))'},
     'operator!=|std::shared_ptr<Pistache::Rest::Route>,std::nullptr_t': {'expr': '(($0) != 0)'}, 'operator==|std::shared_ptr<Pistache::Rest::Route>,std::nullptr_t': {'expr': '(($0) == 0)'},
     'operator!=|std::shared_ptr<Pistache::Rest::SegmentTreeNode>,std::nullptr_t': {'expr': '(($0) != 0)'}, 'operator==|std::shared_ptr<Pistache::Rest::SegmentTreeNode>,std::nullptr_t': {'expr': '(($0) == 0)'},
@@ -115,19 +123,119 @@ STUBS = {
     'var:npos': 'VS_NPOS', 'var:std::basic_string_view<char>::npos': 'VS_NPOS', 'var:std::string_view::npos': 'VS_NPOS',
     'std::basic_string_view<char>::empty': {'expr': '((($this))->n == 0)'}, 'std::basic_string_view<char>::length': {'expr': '((($this))->n)'}, 'std::basic_string_view<char>::size': {'expr': '((($this))->n)'},
     'std::basic_string_view<char>::data': {'expr': '((($this))->p)'},
-    'std::basic_string_view<char>::find': {'expr': 'vs_sv_find($this, $0)'},
+    'std::basic_string_view<char>::find': {'expr': 'vs_sv_find(&L, path, $this, $0)'},
     'std::basic_string_view<char>::substr/2': {'expr': 'vs_sv_substr($this, $0, $1)'}, 'std::basic_string_view<char>::substr/1': {'expr': 'vs_sv_substr($this, $0, VS_NPOS)'},
     'ctor:std::basic_string_view<char>/2': {'expr': '((struct vs_sv){($0), ($1)})'}, 'ctor:std::string_view/2': {'expr': '((struct vs_sv){($0), ($1)})'},
     'ctor:std::string/2': {'expr': '((struct vs_sv){($0), ($1)})'},
-    CM + '::count': {'expr': 'vs_cmap_count($this, $0)'}, CM + '::at': {'expr': 'vs_cmap_at($this, $0)'}, CM + '::empty': {'expr': '((($this))->n == 0)'},
+    CM + '::count': {'expr': 'vs_cmap_count(&L, path, $this, $0)'}, CM + '::at': {'expr': '(*vs_cmap_at(&L, path, $this, $0))'}, CM + '::empty': {'expr': '((($this))->n == 0)'},
     CM + '::begin': {'expr': '((struct vs_cit){(($this))->kind, 0})'}, CM + '::end': {'expr': '((struct vs_cit){(($this))->kind, (($this))->n})'},
     'operator!=|%s,%s' % (CIB, CIB): {'expr': '(($0).i != ($1).i)'}, 'operator==|%s,%s' % (CIB, CIB): {'expr': '(($0).i == ($1).i)'},
     'operator++|' + CCI: {'expr': '(++($0).i)'}, 'operator++|' + CI: {'expr': '(++($0).i)'},
-    'operator*|' + CCI: {'expr': '(*vs_cmap_entry($0))'}, 'operator*|' + CI: {'expr': '(*vs_cmap_entry($0))'},
-    'operator->|' + CCI: {'expr': 'vs_cmap_entry($0)'}, 'operator->|' + CI: {'expr': 'vs_cmap_entry($0)'},
+    'operator*|' + CCI: {'expr': '(*vs_cmap_entry(&L, $0))'}, 'operator*|' + CI: {'expr': '(*vs_cmap_entry(&L, $0))'},
+    'operator->|' + CCI: {'expr': 'vs_cmap_entry(&L, $0)'}, 'operator->|' + CI: {'expr': 'vs_cmap_entry(&L, $0)'},
     'field:%s::first' % CP: '$.first', 'field:%s::second' % CP: '$.second',
+    'field:%s::value_type::second' % CCI: '($)->second', 'field:%s::value_type::first' % CCI: '($)->first',
     'std::vector<Pistache::Rest::TypedParam>::emplace_back': {'expr': 'vs_pvec_push($this, $0, $1)'}, 'std::vector<Pistache::Rest::TypedParam>::pop_back': {'expr': 'vs_pvec_pop($this)'},
 }
+PRELUDE_AFTER_RECORDS = r'''
+/* the children this level can reach: one object per kind (what is below a child is the induction hypothesis, not modelled) */
+struct Pistache_Rest_SegmentTreeNode vs_child_fixed, vs_child_param, vs_child_opt, vs_child_splat;
+#define SEG_N(L) ((L)->d == VS_NPOS ? path->n : (L)->d)
+#define NODE_OK(n) ((n)->fixed_.kind == 1 && (n)->param_.kind == 2 && (n)->optional_.kind == 3 && (n)->param_.n <= PATH_MAX_LEN && (n)->optional_.n <= PATH_MAX_LEN \
+    && ((n)->splat_ == 0 || (n)->splat_ == &vs_child_splat))
+static inline bool node_ok(const struct Pistache_Rest_SegmentTreeNode *n) { return NODE_OK(n); }
+static inline struct vs_level vs_level_init(const struct vs_sv *path, const struct vs_pvec *params, const struct vs_pvec *splats)
+{
+    struct vs_level L; size_t pj, oj;
+    L.d = 0; L.d_set = 0; L.p0 = params->n; L.s0 = splats->n; L.stage = 0; L.found = 0;
+    L.fixed_asked = 0; L.splat_asked = 0; L.leaf_opt_asked = 0; L.pj = pj; L.oj = oj; L.pj_asked = 0; L.oj_asked = 0; L.cur_idx = 0; L.cur_key.p = 0; L.cur_key.n = 0; L.slot.first = L.cur_key; L.slot.second = 0; L.fixed_ptr = &vs_child_fixed;
+    return L;
+}
+static inline void vs_level_note_find(struct vs_level *L, const struct vs_sv *path, const struct vs_sv *s, char ch, size_t r)
+{
+    if (ch == '/' && s == path && !L->d_set) { L->d = r; L->d_set = 1; }
+}
+/* count(segment) / at(segment) on the fixed map: asked about the current segment, i.e. the path up to its first '/' */
+static inline size_t vs_cmap_count(struct vs_level *L, const struct vs_sv *path, const struct vs_cmap *m, struct vs_sv seg)
+{
+    __CPROVER_assert(L->d_set && seg.p == path->p && seg.n == SEG_N(L), "C10: children are looked up by the first segment of the path (the text before the first '/')");
+    return m->has_seg ? 1 : 0;
+}
+static inline struct Pistache_Rest_SegmentTreeNode **vs_cmap_at(struct vs_level *L, const struct vs_sv *path, const struct vs_cmap *m, struct vs_sv seg)
+{
+    __CPROVER_assert(L->d_set && seg.p == path->p && seg.n == SEG_N(L), "C10: children are looked up by the first segment of the path (the text before the first '/')");
+    __CPROVER_assert(m->has_seg, "unordered_map::at() only for a key that is present (otherwise out_of_range escapes the search)");
+    return &L->fixed_ptr;
+}
+/* the entry an iterator points at: (name of the parameter, its subtree) */
+static inline struct vs_cpair *vs_cmap_entry(struct vs_level *L, struct vs_cit it)
+{
+    struct vs_sv key;
+    L->slot.first = key; L->cur_key = key; L->cur_idx = it.i;
+    L->slot.second = it.kind == 2 ? &vs_child_param : &vs_child_opt;
+    return &L->slot;
+}
+/* one attempt: child `c` is about to be asked about `lower` with the binding stacks as they are now */
+static inline void vs_attempt(struct vs_level *L, const struct vs_sv *path, const struct Pistache_Rest_SegmentTreeNode *self, const struct Pistache_Rest_SegmentTreeNode *c,
+                              const struct vs_sv *lower, const struct vs_pvec *params, const struct vs_pvec *splats)
+{
+    int k = c == &vs_child_fixed ? 1 : c == &vs_child_param ? 2 : c == &vs_child_opt ? 3 : c == &vs_child_splat ? 4 : 0;
+    __CPROVER_assert(k != 0, "the search descends into a child of this node");
+    
+    __CPROVER_assert(L->found == 0, "C10: exactly one handler: the first attempt that yields a route ends the search");
+    if (path->n != 0) {
+        __CPROVER_assert(L->d_set, "the path is cut at a '/' before any child is asked");
+        __CPROVER_assert(L->d == VS_NPOS ? lower->n == 0 : (lower->p == path->p + L->d + 1 && lower->n == path->n - L->d - 1),
+                         "C10: decided segment by segment: a child is asked about exactly the rest of the path behind the first '/' (nothing, if there is none)");
+        __CPROVER_assert(k >= L->stage, "C10: precedence: the fixed child, then the parameter children, then the optional children, then the wildcard -- never back");
+        L->stage = k;
+        if (k == 1) {
+            __CPROVER_assert(self->fixed_.has_seg, "the fixed child asked is the one stored under this segment");
+            __CPROVER_assert(params->n == L->p0 && splats->n == L->s0, "C10: a fixed segment binds nothing");
+            L->fixed_asked = 1;
+        } else if (k == 2) {
+            __CPROVER_assert(splats->n == L->s0 && params->n == L->p0 + 1 && vs_sv_eq(params->top.name, L->cur_key)
+                             && params->top.value.p == path->p && params->top.value.n == SEG_N(L),
+                             "C10: a parameter child is asked with exactly one more binding: its name -> this path segment");
+            if (L->cur_idx == L->pj) L->pj_asked = 1;
+        } else if (k == 3) {
+            __CPROVER_assert(splats->n == L->s0 && ((params->n == L->p0 + 1 && vs_sv_eq(params->top.name, L->cur_key) && params->top.value.p == path->p && params->top.value.n == SEG_N(L))
+                                                    || params->n == L->p0),
+                             "C10: an optional child is asked with its name -> this path segment bound, or (second try) with nothing bound");
+            if (L->cur_idx == L->oj && params->n == L->p0 + 1) L->oj_asked = 1;
+        } else {
+            __CPROVER_assert(params->n == L->p0 && splats->n == L->s0 + 1 && splats->top.value.p == path->p && splats->top.value.n == SEG_N(L),
+                             "C10: the wildcard child is asked with this path segment pushed on the splats");
+            L->splat_asked = 1;
+        }
+    } else {
+        __CPROVER_assert(k == 3 && lower->n == 0 && params->n == L->p0 && splats->n == L->s0, "at the end of the path only an optional child is asked, with nothing more bound");
+        L->leaf_opt_asked = 1;
+    }
+}
+static inline void vs_attempt_done(struct vs_level *L, struct vs_route *r) { if (r != 0 && L->found == 0) L->found = r; }
+/* what this level must have done when it returns `ret` (layer II of the contract) */
+static inline void vs_level_exit(const struct vs_level *L, const struct vs_sv *path, const struct Pistache_Rest_SegmentTreeNode *self, const struct vs_res *ret,
+                                 const struct vs_pvec *params, const struct vs_pvec *splats)
+{
+    if (path->n != 0) {
+        __CPROVER_assert(ret->route == L->found, "C10: the result is the route of the first attempt that yielded one (none, if none did)");
+        if (ret->route == 0) {
+            __CPROVER_assert(!self->fixed_.has_seg || L->fixed_asked, "C10: no route is reported while the fixed child for this segment was not asked");
+            __CPROVER_assert(L->pj >= self->param_.n || L->pj_asked, "C10: no route is reported while a parameter child was not asked");
+            __CPROVER_assert(L->oj >= self->optional_.n || L->oj_asked, "C10: no route is reported while an optional child was not asked");
+            __CPROVER_assert(self->splat_ == 0 || L->splat_asked, "C10: no route is reported while the wildcard child was not asked");
+            __CPROVER_assert(params->n == L->p0 && splats->n == L->s0, "C10: backtracking leaves the binding stacks as they were");
+        }
+    } else {
+        __CPROVER_assert(self->optional_.n == 0 || L->leaf_opt_asked, "at the end of the path an optional child, if any, decides");
+        if (self->optional_.n == 0) {
+            __CPROVER_assert(ret->route == self->route_, "C10: at the end of the path the node's own route (or none) is the result");
+            __CPROVER_assert(ret->route == 0 || (ret->params.n == L->p0 && ret->splats.n == L->s0), "C10: the route is returned with exactly the bindings collected on the way");
+        }
+    }
+}
+'''
 THROWING = []
 ALWAYS_REPLACE = []
 OPAQUE = []
@@ -138,13 +246,33 @@ DEFAULT_RULE = False
 OPAQUE_UNKNOWN = True
 FUNCTIONS = [
     {'q': NODE + '::findRoute', 'sig': 'std::tuple<std::shared_ptr<Route>, std::vector<TypedParam>, std::vector<TypedParam>> (const std::string_view &, std::vector<TypedParam> &, std::vector<TypedParam> &) const',
-     'c': 'Node_findRoute3', 'hoist_all': True, 'contract': """
+     'c': 'Node_findRoute3', 'hoist_all': True,
+     'prologue': 'struct vs_level L = vs_level_init(path, params, splats);',
+     'ghost': [('Node_findRoute3', 'before', 'vs_attempt(&L, path, this, $0, $1, params, splats);'), ('Node_findRoute3', 'after', 'vs_attempt_done(&L, $RET.route);')],
+     'exit_ghost': 'vs_level_exit(&L, path, this, &vs_ret, params, splats);',
+     'contract': """
         requires __CPROVER_rw_ok(this, sizeof(*this)) && __CPROVER_r_ok(path, sizeof(*path)) && __CPROVER_rw_ok(params, sizeof(*params)) && __CPROVER_rw_ok(splats, sizeof(*splats))
-        requires vs_exc == 0
+        requires node_ok(this) && node_ok(&vs_child_fixed) && node_ok(&vs_child_param) && node_ok(&vs_child_opt) && node_ok(&vs_child_splat) && path->n <= PATH_MAX_LEN && (path->n == 0 || __CPROVER_r_ok(path->p, path->n)) && params->n <= 2 * PATH_MAX_LEN - path->n && splats->n <= 2 * PATH_MAX_LEN - path->n && vs_exc == 0
         assigns *params, *splats
-        ensures vs_exc == 0"""},
+        # (I) what callers -- and the recursive calls, by induction -- rely on
+        ensures vs_exc == 0
+        # no match: every binding pushed on the way was popped again, and nothing is handed back
+        ensures RET.route == 0 ==> (params->n == OLD(params->n) && splats->n == OLD(splats->n) && RET.params.n == 0 && RET.splats.n == 0)
+        # a match: the bindings handed back extend the ones on entry
+        ensures RET.route != 0 ==> (RET.params.n >= OLD(params->n) && RET.splats.n >= OLD(splats->n))""",
+     'loops': ["""
+        assigns *params, *splats, L, __begin3, $HOISTED
+        invariant vs_exc == 0 && __begin3.i <= __end3.i && __end3.i == this->param_.n && __begin3.kind == 2 && params->n == L.p0 && splats->n == L.s0 && L.found == 0
+        invariant L.d == LOOP_ENTRY(L.d) && L.p0 == LOOP_ENTRY(L.p0) && L.s0 == LOOP_ENTRY(L.s0) && L.pj == LOOP_ENTRY(L.pj) && L.oj == LOOP_ENTRY(L.oj)
+        invariant L.d_set && L.stage <= 2 && path->n != 0 && (L.pj < __begin3.i ==> L.pj_asked) && (this->fixed_.has_seg ==> L.fixed_asked) && !L.splat_asked
+        decreases __end3.i - __begin3.i""", """
+        assigns *params, *splats, L, __begin3, $HOISTED
+        invariant vs_exc == 0 && __begin3.i <= __end3.i && __end3.i == this->optional_.n && __begin3.kind == 3 && params->n == L.p0 && splats->n == L.s0 && L.found == 0
+        invariant L.d == LOOP_ENTRY(L.d) && L.p0 == LOOP_ENTRY(L.p0) && L.s0 == LOOP_ENTRY(L.s0) && L.pj == LOOP_ENTRY(L.pj) && L.oj == LOOP_ENTRY(L.oj)
+        invariant L.d_set && L.stage <= 3 && path->n != 0 && (L.oj < __begin3.i ==> L.oj_asked) && (L.pj < this->param_.n ==> L.pj_asked) && (this->fixed_.has_seg ==> L.fixed_asked) && !L.splat_asked
+        decreases __end3.i - __begin3.i"""]},
 ]
 PROOFS = [
     {'name': 'findRoute', 'enforce': 'Node_findRoute3', 'rec': True, 'loops': 'contracts', 'props': ['C10'],
-     'harness': 'void h_findRoute(void) { struct Pistache_Rest_SegmentTreeNode n; struct vs_sv path; struct vs_pvec ps, ss; Node_findRoute3(&n, &path, &ps, &ss); }\n'},
+     'harness': 'void h_findRoute(void) { struct Pistache_Rest_SegmentTreeNode n, c1, c2, c3, c4; vs_child_fixed = c1; vs_child_param = c2; vs_child_opt = c3; vs_child_splat = c4; _Bool hs; n.splat_ = hs ? &vs_child_splat : 0; vs_child_fixed.splat_ = 0; vs_child_param.splat_ = 0; vs_child_opt.splat_ = 0; vs_child_splat.splat_ = 0; struct vs_sv path; size_t len; __CPROVER_assume(len <= PATH_MAX_LEN); char *b = malloc(len); __CPROVER_assume(b != 0); path.p = b; path.n = len; struct vs_pvec ps, ss; Node_findRoute3(&n, &path, &ps, &ss); }\n'},
 ]
